@@ -952,8 +952,9 @@ class C10(Check):
     props_modules = ["Utv.Props.C10"]
     driver = "C10"
     impl = "harness.c10:impl"
-    rule = ("random declarations (Schema classes through __from__/class options, keyword functions with and without "
-            "**kwargs; 1-4 fields; field types of depth<=3 over int/str/float/bool with bound/length constraints, "
+    rule = ("random declarations (Schema classes through __from__/class options, functions called by keyword and by "
+            "position incl. *args: T, with and without **kwargs / **kwargs: T; typed `addition` (plain class or "
+            "constrained Rule) with the invalid_values policies; 1-4 fields; field types of depth<=3 over int/str/float/bool with bound/length constraints, "
             "List/Tuple/Dict/Optional and the combinators & | ^ ~; required/default/on_error; addition None/False/True; "
             "invalid_* policies; both lookup strategies) x inputs with any subset of fields invalid/missing + excess "
             "keys, each run fail-fast and collecting with max_errors in {None,1,2,3} and every item parsed alone; "
@@ -961,7 +962,8 @@ class C10(Check):
             "passed under a policy; distinct by (declaration, options, input)")
     assumptions = ["plain-class conversions and type(v)==cls are measured on the real code per case and handed to the "
                    "model as tables; the theorems hold for every such table (World)",
-                   "fragment: no aliases/dependencies/no_input/discriminator/max_params; constraints gt/ge/lt/le on int "
+                   "fragment: no aliases/dependencies/no_input/discriminator/max_params/positional-only or excluded (_x) "
+                   "parameters; no parameter given both by position and by keyword; constraints gt/ge/lt/le on int "
                    "and length constraints (the validators are abstract in the theorems)"]
     budget = {"quick": 1800, "thorough": 30000}
     search_budget = {"quick": 2500, "thorough": 25000}
@@ -1000,6 +1002,9 @@ class C10(Check):
                 "rejected_inputs": sum(1 for _, io, _ in parse if "runs" in io and "ok" not in io["runs"][0]),
                 "accepted_inputs": sum(1 for _, io, _ in parse if "runs" in io and "ok" in io["runs"][0]),
                 "runs_on_real_code": sum(len(io["runs"]) + len(io["alone"]) for _, io, _ in parse if "runs" in io),
+                "calls_with_positional_args": sum(1 for c, io, _ in parse if c.get("args") and "runs" in io),
+                "calls_with_var_positional": sum(1 for c, io, _ in parse if c.get("var") and "runs" in io),
+                "typed_addition": sum(1 for c, io, _ in parse if (isinstance(c["opts"].get("addition"), dict) or c.get("kwty")) and "runs" in io),
             }
             self._samples = [{"case": c, "implementation": {k: v for k, v in io.items() if k != "tables"}, "model": mo}
                              for c, io, mo in parse if "resolved" in io and failing_items(io)][5:7]
@@ -1127,7 +1132,9 @@ class C10(Check):
         combs = "".join(op for op in "&|^~" if f'"comb": "{op}"' in s)
         tag = "unmodelled/" if "unmodelled" in io else ""
         strat = "DF" if case["opts"].get("dfs") else "FF"
-        return f"{tag}{case['api']}/{strat}/failing={min(nfail, 3)}/comb={combs or '-'}"
+        shape = ("+pos" if case.get("args") else "") + ("+*args" if case.get("var") else "") + \
+                ("+typed-add" if isinstance(case["opts"].get("addition"), dict) or case.get("kwty") else "")
+        return f"{tag}{case['api']}{shape}/{strat}/failing={min(nfail, 3)}/comb={'y' if combs else '-'}"
 
     def neighbours(self, case, rng):
         if case.get("kind") != "parse":
